@@ -46,7 +46,7 @@ fn tcfg() -> TypeCfg {
     c
 }
 
-fn sub_pipelines(c: &mut Case) -> CaseResult {
+pub fn sub_pipelines(c: &mut Case) -> CaseResult {
     set_avoid_known(!c.strict);
     let ty0 = gen_type(&mut c.tape, &tcfg());
     let n = gen_len(&mut c.tape);
